@@ -23,7 +23,7 @@ PROOF_MODULES = []
 OBLIGATIONS = ["C27/P_%s.v" % n for n in (
     "union_correct", "intersection_correct", "complement_correct", "complement_helper_correct",
     "free_union_correct", "free_intersection_correct", "contains_sound",
-    "closure_correct_partial", "interior_correct_partial", "boundary_correct_partial", "sup_inf_bound_partial",
+    "closure_correct_partial", "interior_correct_partial", "boundary_correct_partial", "sup_inf_correct_partial",
     "boundary_union_refuted", "unbounded_recursion_refuted", "nonvacuous")]
 
 # defect flags of the model (coq/C27/SetModel.v, DF_*) -> known-finding keys
@@ -296,7 +296,7 @@ def run(ctx):
     ctx.prove(PROOF_MODULES, OBLIGATIONS)
     drv = ctx.build_driver("c27_driver")
     model = ctx.build_model("C27", "C27/Extract.v", "c27_main.ml", "semodel", extra_ml=["expr_io.ml"])
-    n = 1500 if ctx.tier == "quick" else 40000
+    n = 1500 if ctx.tier == "quick" else 30000
     cases = list(CORPUS) + exhaustive_small(ctx.tier) + [gen_case(ctx.rng) for _ in range(n)]
     explore(ctx, drv, model, cases)
     if ctx.broken and not [v for v in ctx.violations if v["key"].startswith("unclassified")]:
